@@ -52,6 +52,9 @@ pub enum MutExtra {
     ExtendUnder(u8),
     /// `extend` with an iterator of n items whose size_hint over-reports (n+50, Some(n+50))
     ExtendOver(u8),
+    /// `extend_from_within_copy(..)` / `extend_from_within(..)` of the whole contents: doubles the collection, which for
+    /// all but the smallest has to grow into another chunk inside this very call
+    WithinCopy,
 }
 
 #[derive(Clone, Copy, Debug, PartialEq, Eq, Hash)]
@@ -59,7 +62,8 @@ pub struct MutSpec {
     pub kind: MutKind,
     /// element type code: 0 = (), 1 = u8, 3 = [u8;3], 8 = u64, 24 = [u64;3], 32 = Align32
     pub elem: u8,
-    /// 255 = `new_in`, otherwise `with_capacity_in(cap)`
+    /// 255 = `new_in`; vectors only: 254 = `from_iter_in`, 253 = `from_iter_exact_in`, 252 = `from_owned_slice_in`,
+    /// 251 = `from_elem_in` (three elements each); otherwise `with_capacity_in(cap)`
     pub cap: u8,
     pub pushes: u8,
     pub extra: MutExtra,
@@ -224,13 +228,37 @@ where
     let rev = spec.kind == MutKind::VecRev;
     // expected logical contents in *push order*
     let mut pushed = 0usize;
+    let mut doubled = false;
     macro_rules! body {
         ($Vec:ident) => {{
             let r = catch_unwind(AssertUnwindSafe(|| {
-                let mut v: $Vec<T, &mut BumpScope<'a, A, S>> = if spec.cap == 255 { $Vec::new_in(&mut *scope) } else { $Vec::with_capacity_in(spec.cap as usize, &mut *scope) };
+                // cap 251..=254: the other constructors, each producing three elements (rewritten below to what three
+                // pushes would have left, so that the rest of the driver and the content oracle stay the same)
+                let mut v: $Vec<T, &mut BumpScope<'a, A, S>> = match spec.cap {
+                    255 => $Vec::new_in(&mut *scope),
+                    254 => $Vec::from_iter_in(LyingIter::<T> { next: 0, end: 3, hint: (0, None), panic_at: None, _t: std::marker::PhantomData }, &mut *scope),
+                    253 => $Vec::from_iter_exact_in((0..3usize).map(T::make), &mut *scope),
+                    252 => $Vec::from_owned_slice_in(vec![T::make(0), T::make(1), T::make(2)], &mut *scope),
+                    251 => $Vec::from_elem_in(T::make(0), 3, &mut *scope),
+                    c => $Vec::with_capacity_in(c as usize, &mut *scope),
+                };
+                if (251..=254).contains(&spec.cap) {
+                    if v.len() != 3 {
+                        rep.unexpected = Some(format!("constructor {} produced {} elements instead of 3", spec.cap, v.len()));
+                    }
+                    for (i, e) in v.iter_mut().enumerate() {
+                        *e = T::make(if rev { 2 - i.min(2) } else { i });
+                    }
+                    pushed = 3;
+                }
                 snap(st0, v.allocator_stats(), "created", rep);
-                if v.capacity() < if spec.cap == 255 { 0 } else { spec.cap as usize } {
-                    rep.unexpected = Some(format!("with_capacity_in({}) reports capacity {}", spec.cap, v.capacity()));
+                let need = match spec.cap {
+                    255 => 0,
+                    251..=254 => 3,
+                    c => c as usize,
+                };
+                if v.capacity() < need {
+                    rep.unexpected = Some(format!("constructor {} reports capacity {}", spec.cap, v.capacity()));
                 }
                 for _ in 0..spec.pushes {
                     v.push(T::make(pushed));
@@ -256,8 +284,13 @@ where
                         pushed += n;
                         snap(st0, v.allocator_stats(), "extended", rep);
                     }
+                    MutExtra::WithinCopy => {
+                        v.extend_from_within_copy(..);
+                        doubled = true;
+                        snap(st0, v.allocator_stats(), "extended", rep);
+                    }
                 }
-                if v.len() != pushed {
+                if v.len() != if doubled { 2 * pushed } else { pushed } {
                     rep.unexpected = Some(format!("len() is {} after {} pushes", v.len(), pushed));
                 }
                 match spec.end {
@@ -291,7 +324,8 @@ where
             rep.result = Some(Blk { ptr: ptr.cast(), len: len * size_of::<T>(), align: align_of::<T>() });
             // contents: push order for MutBumpVec, reversed for MutBumpVecRev
             let s = unsafe { std::slice::from_raw_parts(ptr.as_ptr(), len) };
-            rep.content_ok = len == pushed && s.iter().enumerate().all(|(i, e)| e.ok(if rev { pushed - 1 - i } else { i }));
+            let total = if doubled { 2 * pushed } else { pushed };
+            rep.content_ok = len == total && s.iter().enumerate().all(|(i, e)| e.ok(if rev { pushed - 1 - i % pushed.max(1) } else { i % pushed.max(1) }));
         }
         Ok(None) => {}
         Err(p) => {
@@ -357,7 +391,25 @@ where
     // a string that ends as a C string gets NULs in two places: `into_cstr` must cut at the first one
     let pieces = if spec.end == MutEnd::FinaliseCstr { ["a", "é", "\0b", "𝄞", "\0"] } else { ["a", "é", "€", "𝄞", "xyz"] };
     let r = catch_unwind(AssertUnwindSafe(|| {
-        let mut s: MutBumpString<&mut BumpScope<'a, A, S>> = if spec.cap == 255 { MutBumpString::new_in(&mut *scope) } else { MutBumpString::with_capacity_in(spec.cap as usize, &mut *scope) };
+        // cap 250..=254: the other constructors, each starting from the text "aé€" (the last two: invalid input that is
+        // replaced by U+FFFD)
+        let init = "a\u{e9}\u{20ac}";
+        let units: Vec<u16> = init.encode_utf16().collect();
+        let mut s: MutBumpString<&mut BumpScope<'a, A, S>> = match spec.cap {
+            255 => MutBumpString::new_in(&mut *scope),
+            254 => MutBumpString::from_str_in(init, &mut *scope),
+            253 => MutBumpString::from_utf8_lossy_in(init.as_bytes(), &mut *scope),
+            252 => MutBumpString::from_utf16_in(&units, &mut *scope).unwrap_or_else(|_| unreachable!()),
+            251 => MutBumpString::from_utf16_lossy_in(&[0x61, 0xD800, 0x62], &mut *scope),
+            250 => MutBumpString::from_utf8_lossy_in(b"a\xFFb\xC3", &mut *scope),
+            c => MutBumpString::with_capacity_in(c as usize, &mut *scope),
+        };
+        match spec.cap {
+            252..=254 => expect.push_str(init),
+            251 => expect.push_str("a\u{fffd}b"),
+            250 => expect.push_str("a\u{fffd}b\u{fffd}"),
+            _ => {}
+        }
         snap(st0, s.allocator_stats(), "created", rep);
         for i in 0..spec.pushes as usize {
             let p = pieces[i % pieces.len()];
@@ -384,6 +436,12 @@ where
         if let MutExtra::ReserveExact(n) = spec.extra {
             s.reserve_exact(n as usize);
             snap(st0, s.allocator_stats(), "reserved", rep);
+        }
+        if spec.extra == MutExtra::WithinCopy {
+            s.extend_from_within(..);
+            let twice = expect.clone();
+            expect.push_str(&twice);
+            snap(st0, s.allocator_stats(), "extended", rep);
         }
         if s.as_str() != expect {
             rep.unexpected = Some("string contents differ from the model while filling".into());
